@@ -16,7 +16,7 @@ TRUSTED_BASE = [
 ASSUMPTIONS = [
     "record sets inside produce/fetch are delegated to C05 (arrays that would contain a RecordSet stay empty at this level)",
     "float64 is carried as its 8 raw bytes",
-    "both the default and the `unsafe` build of /repo/protocol are exercised (thorough tier: unsafe too)",
+    "both the default and the `unsafe` build of /repo/protocol are exercised in both tiers (same generated values, encodings and decoded values compared)",
     "Conn half: compression is opaque (the harness's marking codec stands for the real codecs; what is handed to the codec is compared with the model's record/message bytes); "
     "CRC-32 / CRC-32C are those of coq/Lib/Crc.v; message times the Conn replaces by time.Now() (zero Message.Time) and deadline-derived timeouts are exercised through the "
     "writers directly (via=direct) with explicit values, through the Conn with no deadline set",
@@ -27,6 +27,7 @@ generate = S.generate
 
 def setup():
     S.setup()
+    L.go_build("c04", tags="verif,unsafe", out=L.BIN + "/c04_unsafe")
     L.go_build("c04conn")
     L.ocaml_build("c04conn")
 
@@ -234,8 +235,9 @@ def correspondence(ctx):
         m = res.get(c["id"], "")
         if m.split(" ")[0] != c["go"].split(" ")[0]:
             continue
-    if ctx.thorough:
-        # the `unsafe` build of /repo/protocol must produce the same bytes
+    if True:
+        # the `unsafe` build of /repo/protocol must produce the same bytes and decode to the same
+        # values (both tiers: the property names both builds of the reflection-driven codec)
         gob = L.go_build("c04", tags="verif,unsafe", out=L.BIN + "/c04_unsafe")
         rc, out, err, _ = L.sh([gob, "-mode", "gen", "-seed", str(ctx.seed), "-n", str(n), "-cuts", "1", "-muts", "1"], timeout=3000)
         if rc != 0:
